@@ -328,3 +328,33 @@ package mapping
 //@   loop 1 iteration-ensures [present-field-processed] ret(parseOptionsWithContext, 2) == nil && (ret(getValue, 1) ==> calls(u.processField) == 1 && ret(processField) == nil && filled) && (!ret(getValue, 1) ==> calls(processField) == 0 && filled == at_head(filled))
 //@   loop 1 iteration-ensures [required-fields-counted] required == at_head(required) + ite(ret(optional), 0, 1) && requiredFilled == at_head(requiredFilled) + ite(!ret(optional) && ret(getValue, 1), 1, 0)
 //@   ensures [partially-set-is-an-error] local(filled) && local(required) != local(requiredFilled) && calls(parseOptionsWithContext) == 0 ==> result != nil
+
+// fillSliceValue: an element whose kind differs from the slice's element kind is a type mismatch (never converted);
+// strings go through the checked string store; a same-kind element is stored as it is.
+//@ func (*Unmarshaler).fillSliceValue
+//@   prop C05
+//@   opaque setValue, fillMap, Deref
+//@   requires u != nil
+//@   let isStringer = typeis(value, string) || calls(String) == 1
+//@   ensures [string-through-checked-store] typeis(value, string) && calls(String) == 0 ==> calls(setValue) == 1 && arg(setValue, 0) == baseKind && arg(setValue, 2) == unbox(value, string) && result == ret(setValue)
+//@   ensures [kind-mismatch-is-an-error] calls(setValue) == 0 && calls(fillMap) == 0 && result != nil ==> result == errTypeMismatch && calls(Set) == 0
+//@   ensures [stored-only-with-matching-kind] calls(Set) >= 1 ==> result == nil && calls(setValue) == 0
+// processFieldStruct: the nested struct is filled from the given valuer under the same full name; a pointer field
+// is allocated, filled and only then attached (an error leaves the field untouched).
+//@ func (*Unmarshaler).processFieldStruct
+//@   prop C05
+//@   opaque Deref, unmarshalWithFullName
+//@   requires u != nil
+//@   ensures [filled-from-the-valuer] calls(u.unmarshalWithFullName) == 1 && arg(u.unmarshalWithFullName, 1) == m && arg(u.unmarshalWithFullName, 3) == fullName && (ret(unmarshalWithFullName) != nil ==> result == ret(unmarshalWithFullName) && calls(Set) == 0) && (ret(unmarshalWithFullName) == nil ==> result == nil)
+// processFieldWithEnvValue: the environment value is checked against options= first; bool / duration / string are
+// parsed as such (a parse error is an error), everything else goes through the checked JSON-number path.
+//@ func (*Unmarshaler).processFieldWithEnvValue
+//@   prop C05
+//@   opaque validateValueInOptions, options, fillDurationValue, processFieldPrimitiveWithJSONNumber, Errorf
+//@   requires u != nil
+//@   ensures [options-checked-first] calls(validateValueInOptions) == 1 && unbox(arg(validateValueInOptions, 0), string) == envVal && (ret(validateValueInOptions) != nil ==> result == ret(validateValueInOptions) && calls(SetBool) == 0 && calls(SetString) == 0 && calls(processFieldPrimitiveWithJSONNumber) == 0)
+//@   let k1 = ret(Kind, 0, 1)
+//@   let kd = ret(Kind, 0, 2)
+//@   ensures [bool-parsed] ret(validateValueInOptions) == nil && k1 == 1 ==> calls(strconv.ParseBool, envVal) == 1 && (ret(strconv.ParseBool, 1) != nil ==> result != nil && calls(SetBool) == 0) && (ret(strconv.ParseBool, 1) == nil ==> result == nil && calls(SetBool) == 1 && arg(SetBool, 1) == ret(strconv.ParseBool, 0))
+//@   ensures [string-verbatim] ret(validateValueInOptions) == nil && k1 == 24 && kd != 24 ==> calls(SetString) == 1 && arg(SetString, 1) == envVal && result == nil
+//@   ensures [numbers-through-the-checked-path] ret(validateValueInOptions) == nil && k1 != 1 && k1 != 24 && k1 != kd ==> calls(u.processFieldPrimitiveWithJSONNumber) == 1 && arg(processFieldPrimitiveWithJSONNumber, 3) == envVal && result == ret(processFieldPrimitiveWithJSONNumber)
